@@ -1240,6 +1240,32 @@ def guard_ctor_rules(F, R):
             R.ob("G6.guard-field-vis", mod, fld, "Public" not in v, "RecvGuard.%s is not public (%s)" % (fld, v), nontrivial=False)
 
 
+def _zero_fact(cond, truth, canon_fn):
+    """A branch outcome that compares an unsigned expression with zero: returns (expr, is_nonzero) or None.
+    Recognises ==, !=, > 0, >= 1, < 1, <= 0 in either operand order (through norm_cmp's Lt/Le/Eq/Ne normal form)."""
+    n_ = norm_cmp(cond, truth)
+    if not n_:
+        return None
+    op, a, b = n_[0], canon_fn(n_[1]), canon_fn(n_[2])
+    if op in ("Eq", "Ne"):
+        if a == "0":
+            return b, op == "Ne"
+        if b == "0":
+            return a, op == "Ne"
+        return None
+    if op == "Lt":
+        if a == "0":
+            return b, True      # 0 < x
+        if b == "1":
+            return a, False     # x < 1
+    if op == "Le":
+        if b == "0":
+            return a, False     # x <= 0
+        if a == "1":
+            return b, True      # 1 <= x
+    return None
+
+
 def ctor_rules(F, R, variant):
     """A1-A3: the receive/send buffer starts at an address aligned for the message type and is large enough for one message.
 
@@ -1310,9 +1336,9 @@ def ctor_rules(F, R, variant):
             for ev in events(body, pth):
                 if ev.kind == "branch" and ev.a[0] == "bin":
                     bt = bool_taken(ev)
-                    n_ = norm_cmp(ev.a, bt) if bt is not None else None
-                    if n_ and n_[0] in ("Eq", "Ne") and {_canon(n_[1]), _canon(n_[2])} == {"0", "core::alloc::layout::Layout::size(%s)" % lay}:
-                        zero = n_[0] == "Eq"
+                    zf = _zero_fact(ev.a, bt, _canon) if bt is not None else None
+                    if zf and zf[0] in ("core::alloc::layout::Layout::size(%s)" % lay, "$size"):
+                        zero = not zf[1]
                 elif ev.kind == "call":
                     dl = ev.a.get("dest")
                     if dl and not dl["p"] and body.local_name(dl["v"]) == "data":
@@ -1337,8 +1363,8 @@ def ctor_rules(F, R, variant):
         for sbb, st in db.switches():
             cnd = db.expr_of_operand(st["switch"])
             for truth in (True, False):
-                n_ = norm_cmp(cnd, truth)
-                if n_ and n_[0] == "Ne" and {_canon(n_[1]), _canon(n_[2])} == {"0", "core::alloc::layout::Layout::size($self.1)"}:
+                zf = _zero_fact(cnd, truth, _canon)
+                if zf and zf[1] and zf[0] == "core::alloc::layout::Layout::size($self.1)":
                     ft = [b_ for v, b_ in st["targets"] if int(v) == 0]
                     tgt = st["otherwise"] if truth else (ft[0] if ft else None)
                     if tgt is not None and db.edge_dominates((sbb, tgt), dc[0][0]):
